@@ -64,10 +64,12 @@ func propTable() map[string]*PropSpec {
 	{
 		c := arith(rc("C19_Timeout", "services/electiontrigger", "C19_Timeout", nil))
 		c.RequireReach = []string{"C19.view_ge_71", "C19.view_32"}
-		t["C19"] = &PropSpec{ID: "C19", Quick: []RunConfig{c}, Thorough: []RunConfig{c},
+		g := rc("C19_Guards", "services/electiontrigger", "C19_Guards", nil)
+		g.RequireReach = []string{"C19.guards.done"}
+		t["C19"] = &PropSpec{ID: "C19", Quick: []RunConfig{c, g}, Thorough: []RunConfig{c, g},
 			Assumptions: []string{"base timeout in [1ns, 2^62ns]", "math.Pow(2,y) summary: exact (native) for concrete y; >= 2^64 or +Inf for symbolic y >= 64"},
-			Bounds:      []string{"views 0..70 each as a concrete case, views 71..2^64-1 as one symbolic class; base fully symbolic"},
-			Outside:     []string{"timer goroutine racing Stop, 'not before the timeout', eventual delivery, slow/absent channel reader: properties of the Go runtime timer and scheduler"},
+			Bounds:      []string{"views 0..70 each as a concrete case, views 71..2^64-1 as one symbolic class; base fully symbolic", "guards: one trigger object, symbolic positions (views 0..3), the sequence arm / same-pair re-arm / expire+deliver / Stop / re-arm same pair / arm + (expire unread)? + re-arm other pair / Stop, against ghost timers (time.AfterFunc recorded, fired by the harness; natively real 1 ms timers)"},
+			Outside:     []string{"the timer firing concurrently with Stop / RegisterOnElection, 'not before the timeout', delivery latency, a reader that shows up only later: properties of the Go runtime timer and scheduler"},
 		}
 	}
 	// ---------------- C02 ----------------
